@@ -8,7 +8,9 @@ make(globals(), "C03", [functools.partial(Potentials, props=("C03",))],
            "a central finite difference of an independent energy function (closed forms; for the periodic Coulomb "
            "potential a brute-force Ewald sum with its own splitting parameter and larger cut-offs, 1 call in 40; "
            "bending: all three per-unit derivatives and their sum); periodicity and oddness of the Coulomb "
-           "derivative are checked on the same observed arguments; non-trivial = run with >= 30 judged calls"),
+           "derivative are checked on the same observed arguments; the deep copy and the dill round trip of every "
+           "potential object answer 1 call in 25 as well and must agree with the original; non-trivial = run with "
+           ">= 30 judged calls"),
      nontrivial=lambda r: sum(v for k, v in r.probes.items() if k.startswith("c03_") and k.endswith("_checked")) >= 30,
      crash_anchor_files=["/potential/", "/base/vectors.py"],
      assumptions=["tolerance 1e-6 relative for closed forms, 1e-5 for the lattice sum (finite-difference error "
